@@ -17,6 +17,7 @@
 #include <fcntl.h>
 #include <fstream>
 #include <functional>
+#include <locale>
 #include <memory>
 #include <sys/mman.h>
 
@@ -290,6 +291,11 @@ static void build_sized() {
   { Val v; v.label = "Lvx10000"; v.kind = VXD; v.m = seq(10000, 1, 2.5); add(v); }
   { Val v; v.label = "Les10000"; v.kind = ESYS; v.m = seq(10000, 1, 0.5); v.m2 = seq(10000, 1, 9.0); v.m3 = seq(1, 1, -1.0); v.n = 1; add(v); }
   { Val v; v.label = "Lq300"; v.kind = VV3D; for (long k = 0; k < 300; k++) v.vv.push_back(Eigen::Vector3d(double(k), 0.5 + double(k), -double(k))); add(v); }
+  // ---- values for the global-locale histories of family "proc" (numbers that a grouping locale would print with separators)
+  { Val v; v.label = "gi"; v.kind = IDX; v.i = 1234567; add(v); }
+  { Val v; v.label = "gd"; v.kind = DBL; v.d = 1234567.891; add(v); }
+  { Val v; v.label = "gs"; v.kind = STR; v.s = "1,234,567.5 / 1.234.567,5"; add(v); }
+  { Val v; v.label = "gq1500"; v.kind = VV3D; for (long k = 0; k < 1500; k++) v.vv.push_back(Eigen::Vector3d(1234.5 + double(k), -double(k), 0.001 * double(k))); add(v); }
   { Val v; v.label = "Lt4000"; v.kind = TBL; for (long k = 0; k < 4000; k++) v.rows.push_back(mkrow(k + 1, "E" + std::to_string(k), 1.0 + 0.5 * double(k))); add(v); }
 }
 
@@ -1155,10 +1161,26 @@ static int main_overlap(bsx::Args &a) {
 //                    + SetupCptTable + initialize(loc,compact) (what openTable does internally)
 //   W:f:g:<label>    write value <label> under name x (small: one of the sized values, large: > 64 KiB, "L…")
 //   N:f              replace the CheckpointFile object of file f by a new one (MODIFY)
+//   G:c|g|d          std::locale::global(): classic / thousands grouping "1,234,567" / grouping + decimal comma "1.234.567,5"
+//                    (hand-written numpunct facet; only C/POSIX locales are installed).  The fresh READ handles at the end
+//                    read under whatever global locale the history ends with; the classic locale is restored afterwards.
+struct GroupPunct : std::numpunct<char> {
+  bool comma;
+  explicit GroupPunct(bool c) : comma(c) {}
+  char do_thousands_sep() const override { return comma ? '.' : ','; }
+  std::string do_grouping() const override { return "\3"; }
+  char do_decimal_point() const override { return comma ? ',' : '.'; }
+};
+static void set_global_locale(char which) {
+  if (which == 'c') std::locale::global(std::locale::classic());
+  else std::locale::global(std::locale(std::locale::classic(), new GroupPunct(which == 'd')));
+}
+static const char *locname(char c) { return c == 'c' ? "classic" : (c == 'g' ? "grouping" : "grouping-decimal-comma"); }
 struct POp { char kind; int file; int grp; char compact; char route; int rows; int val; };
 static const char *PGRP[2] = {"/", "/a/b"};
 static std::string popstr(const POp &o) {
   std::string s(1, o.kind);
+  if (o.kind == 'G') return s + ":" + o.compact;
   s += std::string(":") + "AB"[o.file];
   if (o.kind == 'N') return s;
   s += std::string(":") + "rc"[o.grp];
@@ -1178,7 +1200,8 @@ static bool parse_phist(const std::string &cas, std::vector<POp> &ops) {
     auto f = bsx::split(t, ':');
     if (f.size() < 2 || f[1].size() != 1) return false;
     POp o{}; o.kind = f[0][0]; o.file = f[1][0] == 'B';
-    if (o.kind == 'N') { if (f.size() != 2) return false; }
+    if (o.kind == 'G') { if (f.size() != 2 || (f[1][0] != 'c' && f[1][0] != 'g' && f[1][0] != 'd')) return false; o.compact = f[1][0]; o.file = 0; }
+    else if (o.kind == 'N') { if (f.size() != 2) return false; }
     else if (o.kind == 'T') { if (f.size() != 6) return false; o.grp = f[2][0] == 'c'; o.compact = f[3][0]; o.route = f[4][0]; o.rows = atoi(f[5].c_str()); }
     else if (o.kind == 'W') { if (f.size() != 4 || !BYLABEL.count(f[3])) return false; o.grp = f[2][0] == 'c'; o.val = BYLABEL[f[3]]; }
     else return false;
@@ -1196,6 +1219,17 @@ static bool is_large(const Val &v) { return v.label.size() > 1 && v.label[0] == 
 // class key from the history (parent or child alike): which op failed and what happened before it in the process
 static std::string proc_key(const std::vector<POp> &ops, int step, const std::string &sym) {
   if (step < 0 || step >= (int)ops.size()) return "proc-" + sym;
+  bool anyG = false;
+  for (auto &op : ops) if (op.kind == 'G') anyG = true;
+  if (anyG) {
+    // global-locale histories: under which locale was the failing op executed, under which does the history end (= are the fresh handles read)
+    char X = 'c', Y = 'c';
+    for (int k = 0; k < (int)ops.size(); k++) if (ops[k].kind == 'G') { if (k < step) X = ops[k].compact; Y = ops[k].compact; }
+    std::string what = ops[step].kind == 'W' ? std::string(kindname[ALPHA[ops[step].val].kind]) + "-" + shapeclass(ALPHA[ops[step].val]) : std::string(1, ops[step].kind);
+    if (sym != "differs") return std::string("locale-") + locname(X) + "-op-" + sym + "-" + what;
+    if (X == Y) return std::string("locale-") + locname(X) + "-throughout-" + what + "-differs";
+    return "locale-changed-between-write-and-read-" + what + "-differs";
+  }
   std::string before = "no-table";
   for (int k = 0; k < step; k++)
     if (ops[k].kind == 'T') {
@@ -1218,6 +1252,7 @@ static bsx::Outcome run_proc(const std::vector<POp> &ops, const std::string &bas
     return o;
   };
   H5::Exception::dontPrint();
+  struct RestoreLocale { ~RestoreLocale() { std::locale::global(std::locale::classic()); } } restore_locale;
   // model: per file and group: value written to x (alphabet index) and table written to t (rows, seed)
   struct Slot { int x = -1; int trows = -1, tseed = 0; };
   Slot M[2][2];
@@ -1232,7 +1267,9 @@ static bsx::Outcome run_proc(const std::vector<POp> &ops, const std::string &bas
       const POp &op = ops[st];
       mark((int)st);
       lastfail_step = (int)st;
-      if (op.kind == 'N') {
+      if (op.kind == 'G') {
+        set_global_locale(op.compact);
+      } else if (op.kind == 'N') {
         H[op.file].reset();
         try { H[op.file].reset(new CheckpointFile(fn[op.file], CheckpointAccessLevel::MODIFY)); }
         catch (const std::exception &e) { return failwith(proc_key(ops, (int)st, "rejected"), std::string("re-opening with MODIFY threw: ") + e.what()); }
@@ -1330,6 +1367,7 @@ static bsx::Outcome run_proc(const std::vector<POp> &ops, const std::string &bas
   bool anyk = false;
   for (auto &op : ops) if (op.kind == 'T' && op.compact == 'k') anyk = true;
   key += anyk ? "K|" : "-|";
+  { std::string ls; for (auto &op : ops) if (op.kind == 'G') ls += op.compact; if (!ls.empty()) key += "loc=" + ls + "|"; }
   for (int f = 0; f < 2; f++) for (int g = 0; g < 2; g++) {
     key += std::string(1, "AB"[f]) + "rc"[g] + "=" + (M[f][g].x >= 0 ? ALPHA[M[f][g].x].label : "-") + "/" + (M[f][g].trows >= 0 ? std::to_string(M[f][g].trows) : "-") + ";";
   }
@@ -1370,7 +1408,9 @@ static int main_proc(bsx::Args &a) {
            "CheckpointWriter::openTable or through the public CptTable constructor+initialize, in any of the 4 (file,group) places ; [small value to x after] ; [replace the CheckpointFile object of the "
            "target file by a new MODIFY one] ; write a LARGE value (> 64 KiB: " + std::string(thorough ? "MatrixXd 128x128 and 1x10000, vector<double>/<Index> 20000, vector<string> 5000, MatrixXf 200x100, VectorXd 10000, EigenSystem 10000, "
            "vector<Vector3d> 300, table 4000 rows" : "MatrixXd 128x128, vector<double> 20000, table 4000 rows") + ") to x in any of the 4 places: the full product, plus the controls without any table "
-           "and with the large value written first. Oracle: every write succeeds; fresh READ handles on both files return every x and every table t bit-identically, never-written names raise. "
+           "and with the large value written first. Global C++ locale as process state: std::locale::global(X) ; write value ; std::locale::global(Y) ; read with fresh handles, X,Y in {classic, "
+           "thousands grouping 1,234,567, grouping + decimal comma 1.234.567,5} (hand-written numpunct facets), for " + std::string(thorough ? "35 values of every kind incl. vector<Vector3d> of 12/101/1001/1500 elements, on two places" : "14 values of every kind incl. vector<Vector3d> of 12 and 1001 elements") +
+           ", and list-over-list overwrites under three locales. Oracle: every write succeeds; fresh READ handles on both files return every x and every table t bit-identically, never-written names raise. "
            "distinct_nontrivial = distinct end states (content of the 4 places + whether a compact table was created in the process)";
   auto Wop = [&](int f, int g, const char *label) { POp o{}; o.kind = 'W'; o.file = f; o.grp = g; o.val = BYLABEL.at(label); return o; };
   auto Top = [&](int f, int g, char c, char r, int n) { POp o{}; o.kind = 'T'; o.file = f; o.grp = g; o.compact = c; o.route = r; o.rows = n; return o; };
@@ -1400,6 +1440,31 @@ static int main_proc(bsx::Args &a) {
   // table sizes other than 2 (0 rows, and 500 rows = 60 000 bytes, just under the compact limit), compact, both routes
   for (char route : {'o', 'd'}) for (int n : {0, 1, 500}) for (int wl : {0, 3}) {
     H.push_back({Top(0, 1, 'k', route, n), Wop(wl / 2, wl % 2, "Lm128")});
+  }
+  // ---- global C++ locale as process state: write under X, read (fresh handles) under Y
+  {
+    auto Gop = [&](char c) { POp o{}; o.kind = 'G'; o.compact = c; return o; };
+    std::vector<const char *> lv = {"imax", "gi", "gd", "dpi", "sutf", "gs", "vd#12", "vs#12", "vi#12", "mc#12", "q#12", "q#1001", "t#12", "es#12"};
+    if (thorough) {
+      std::vector<const char *> more = {"nmax", "umax", "f15", "bT", "dnan", "s300", "vn#12", "rv#12", "vx#12", "mf#12", "mz#12", "mblk", "p123", "q#101", "gq1500",
+                                        "t#101", "tk#12", "tr#12", "es#101", "vs#101", "Lvd20000"};
+      lv.insert(lv.end(), more.begin(), more.end());
+    }
+    const char LOC[3] = {'c', 'g', 'd'};
+    for (const char *v : lv)
+      for (char X : LOC) for (char Y : LOC)
+        for (int pl : {0, 3}) {
+          if (pl == 3 && !thorough) continue;
+          H.push_back({Gop(X), Wop(pl / 2, pl % 2, v), Gop(Y)});
+        }
+    // a list written under one locale replaced by a list written under another, read under a third
+    std::vector<std::pair<const char *, const char *>> ow = {{"q#12", "q#1001b"}};
+    if (thorough) { ow.push_back({"q#1001", "q#12b"}); ow.push_back({"q#1001", "q#1001b"}); ow.push_back({"t#12", "t#101b"}); }
+    for (auto &pr : ow)
+      for (char X : LOC) for (char Y : LOC) for (char Z : LOC) {
+        if (!thorough && !(X != Y || Y != Z)) continue;
+        H.push_back({Gop(X), Wop(0, 1, pr.first), Gop(Y), Wop(0, 1, pr.second), Gop(Z)});
+      }
   }
   long long states = 0, transitions = 0;
   std::set<std::string> seen;
@@ -1432,7 +1497,8 @@ static int main_proc(bsx::Args &a) {
   R.assumptions = {
       "every history runs in a process of its own, so that what a table creation leaves behind in libhdf5's process-wide state can only affect its own history",
       "compact tables are kept below libhdf5's 64 KiB limit for compact datasets (2 rows; 500 rows = 60 000 bytes); a compact table above the limit is refused by libhdf5 and not part of the space",
-      "the public-constructor route writes the table under a name that is still free (CptTable::initialize does not replace an existing dataset)"};
+      "the public-constructor route writes the table under a name that is still free (CptTable::initialize does not replace an existing dataset)",
+      "only the C++ global locale (std::locale::global with an unnamed facet locale) is varied; the C locale (setlocale) stays \"C\"; map<T1,vector<T2>> has a writer but no reader and is not round-tripped"};
   if (!R.write(a.out)) { fprintf(stderr, "cannot write %s\n", a.out.c_str()); return 2; }
   return 0;
 }
